@@ -65,6 +65,7 @@ type Result struct {
 	Samples     []exec.PathSample `json:"sample_paths"`
 	Params      map[string]int    `json:"params"`
 	Terms       int               `json:"terms"`
+	Fallbacks   int               `json:"fallback_queries"`
 }
 
 type Job struct {
@@ -168,10 +169,10 @@ func runJob(prog *ssa.Program, fn *ssa.Function, j *Job, jf *JobFile, ov map[str
 	start := time.Now()
 	solver := j.Solver
 	if solver == "" {
-		solver = "z3"
+		solver = "cvc5"
 	}
 	ctx := sym.NewCtx()
-	sv, err := sym.NewSolver(ctx, solver, flagOr(j, "timeout-ms", 60000))
+	sv, err := sym.NewSolver(ctx, solver, flagOr(j, "timeout-ms", 30000))
 	if err != nil {
 		fatal("solver: %v", err)
 	}
@@ -190,7 +191,14 @@ func runJob(prog *ssa.Program, fn *ssa.Function, j *Job, jf *JobFile, ov map[str
 	if b := flagOr(j, "budget-s", 0); b > 0 {
 		ecfg.Deadline = time.Now().Add(time.Duration(b) * time.Second)
 	}
+	for _, fb := range []string{"z3-new", "cvc5", "z3"} {
+		if fb != solver {
+			ecfg.Fallback = append(ecfg.Fallback, fb)
+		}
+	}
+	ecfg.FallbackTimeoutMs = flagOr(j, "fallback-timeout-ms", 120000)
 	m := exec.NewMachine(prog, ctx, sv, ecfg)
+	defer m.Close()
 	oc := m.Explore(fn)
 
 	res := &Result{Harness: j.ID, Pkg: fn.Pkg.Pkg.Path(), Complete: oc.Complete, Reason: oc.Reason, Paths: m.Stats.Paths, Completed: m.Stats.Completed,
@@ -198,7 +206,7 @@ func runJob(prog *ssa.Program, fn *ssa.Function, j *Job, jf *JobFile, ov map[str
 		OverLimit: m.Stats.OverLimit, UnwindHits: m.Stats.UnwindHits, Unknowns: m.Stats.Unknowns, Unsupported: m.Stats.Unsupported,
 		EngineErrors: m.Stats.EngineErrors, SolverErrors: sv.Errors, Queries: sv.Queries, QSat: sv.NSat, QUnsat: sv.NUnsat,
 		SolverTime: sv.Time.Seconds(), Solver: solver, Violations: m.Violations, Reached: m.Reached, SamplePCs: m.SamplePCs, Samples: m.Samples,
-		Params: pm, LoadTime: loadT, Terms: ctx.NumTerms()}
+		Params: pm, LoadTime: loadT, Terms: ctx.NumTerms(), Fallbacks: m.FallbackQueries}
 	if res.Violations == nil {
 		res.Violations = []*exec.Violation{}
 	}
